@@ -169,6 +169,12 @@ fn instantiate_struct_field_ty(
     if let Some((_, ty)) = struct_def.fields.iter().find(|(fname, _)| fname == field) {
         Some(substitute_ty_params(ty, &subst))
     } else if field.0 == COMPLETION_PLACEHOLDER {
+        // The editor queries type-check the text with this name inserted after a `.`; they only
+        // read the types recorded so far, so the access gets a type. It is still not a field.
+        super::util::push_error(
+            diagnostics,
+            format!("Struct {} has no field {}", struct_def.name.0, field.0),
+        );
         Some(tast::Ty::TUnit)
     } else {
         super::util::push_error(
